@@ -131,7 +131,7 @@ func c08CLI(cs *c08Case) (sig, msg string) {
 }
 
 var c08Hostile = []string{
-	"func (", "func", "func(", "foo(func(", "import (", "...", "... ", "...)", "(...", "@@", "@ x @", "@", "#", "-", "+", "\x00", "\xff\xfe",
+	"func (", "func", "func(", "foo(func(", "import (", "{}", "{ }", "{\n}", "foo()", "{ ... }", "package p", "import \"a\"", "package p\n\nimport \"a\"", "...", "... ", "...)", "(...", "@@", "@ x @", "@", "#", "-", "+", "\x00", "\xff\xfe",
 	"package", "import", "var", "type", "const", "type x struct {", "{", "}", "(", ")", "[", "]", "[]", "x...", "...x", "case", "default:",
 	"switch {", "select {", "for ... {", "for {", "if", "else", "go", "defer", "return ...", "chan", "<-", "map[", "interface {", "struct {",
 	"`", "\"", "'", "/*", "//", "*/", "\r", "\t", "var x identifier", "var x expression", "var x, x identifier", "var _ identifier",
@@ -231,7 +231,7 @@ func TestC08(t *testing.T) {
 			if i%n != k {
 				continue
 			}
-			for _, frame := range []string{"%s", "@@\n@@\n%s", "@@\n@@\n-%s\n+x\n", "@@\n@@\n-x\n+%s\n", "@@\n%s\n@@\n-x\n+y\n", "@@\nvar x expression\n@@\n %s\n-x\n+y\n", "@ %s @\n@@\n-x\n+y\n"} {
+			for _, frame := range []string{"%s", "@@\n@@\n%s", "@@\n@@\n-%s\n+x\n", "@@\n@@\n-x\n+%s\n", "@@\n%s\n@@\n-x\n+y\n", "@@\nvar x expression\n@@\n %s\n-x\n+y\n", "@ %s @\n@@\n-x\n+y\n", "@@\n@@\n {\n-%s\n }\n", "@@\n@@\n {\n+%s\n }\n", "@@\n@@\n-x\n+{\n+%s\n+}\n", "@@\n@@\n %s\n\n-x\n+y\n"} {
 				cs := &c08Case{Mode: "hostile", Patch: []byte(fmt.Sprintf(frame, hc)), Target: targets[len(targets)-1], CLI: i%7 == 0}
 				sig, msg, stage := evalC08(cs)
 				record(cs, stage)
